@@ -16,23 +16,23 @@ open Op
 
 /-! ### `fit`, `chunks` -/
 
-theorem fit_length (n : Nat) (x : V) : (fit n x).length = n := by simp [fit]
+private theorem fit_length (n : Nat) (x : V) : (fit n x).length = n := by simp [fit]
 
-theorem fit_of_length {n : Nat} {x : V} (h : x.length = n) : fit n x = x := by
+private theorem fit_of_length {n : Nat} {x : V} (h : x.length = n) : fit n x = x := by
   subst h; simp [fit, List.takeD_eq_take]
 
-theorem headChunk_append {n : Nat} (l r : V) (h : l.length = n) : headChunk n (l ++ r) = l := by
+private theorem headChunk_append {n : Nat} (l r : V) (h : l.length = n) : headChunk n (l ++ r) = l := by
   subst h; simp [headChunk, fit_of_length]
 
 /-- chunking a concatenation of rows of the right lengths returns the rows -/
-theorem chunks_flatten (L : List V) : chunks (L.map List.length) L.flatten = L := by
+private theorem chunks_flatten (L : List V) : chunks (L.map List.length) L.flatten = L := by
   induction L with
   | nil => rfl
   | cons l L ih =>
     simp only [List.map_cons, List.flatten_cons, chunks]
     rw [headChunk_append l _ rfl, List.drop_left, ih]
 
-theorem chunks_length (ns : List Nat) (x : V) : (chunks ns x).length = ns.length := by
+private theorem chunks_length (ns : List Nat) (x : V) : (chunks ns x).length = ns.length := by
   induction ns generalizing x with
   | nil => rfl
   | cons n ns ih => simp [chunks, ih]
